@@ -1268,9 +1268,14 @@ func (x *Exec) floatToInt(v *Term, to IntTy) *Term {
 	}
 	var r64 *Term
 	if to.W == 64 && !to.Signed {
-		rm := o.App("RNE", &Sort{Kind: SRM})
-		small := o.App("fp.lt", BoolSort, v, two63)
-		r64 = o.Ite(small, cvt(v), o.BVOp("bvxor", cvt(o.App("fp.sub", v.Sort, rm, v, two63)), indefinite))
+		// v < 2^63 (or NaN): CVTTSD2SQ(v). Otherwise CVTTSD2SQ(v - 2^63) ^ 2^63: for 2^63 <= v < 2^64 the subtraction is
+		// exact (v is a multiple of 2^11, resp. 2^40), giving the exact integer; for v >= 2^64 and +Inf it gives 0.
+		// (for 0 <= v < 2^63 the signed and the unsigned truncation coincide; the unsigned one is used there too)
+		two64 := x.floatConst(18446744073709551616.0, e, s)
+		zero := x.floatConst(0, e, s)
+		neg := o.Or(o.App("fp.isNaN", BoolSort, v), o.App("fp.lt", BoolSort, v, zero))
+		nonneg := o.Ite(o.App("fp.lt", BoolSort, v, two64), o.App("(_ fp.to_ubv 64)", BVSort(64), rtz, v), o.BVi(0, 64))
+		r64 = o.Ite(neg, cvt(v), nonneg)
 	} else {
 		r64 = cvt(v)
 	}
